@@ -165,3 +165,28 @@ package mfs
 //@   modifies all
 //@   ensures[lock_released] nodeLockFree(fi)
 //@   site[parent_told_without_holding_the_node_lock] invoke:updateChildEntry : nodeLockFree(fi)
+
+// ---- C20: lock order between a directory and its parent ------------------------------------------
+// Locks are taken top-down (parent, then child: Root.Flush, listings, GetNode). A directory therefore
+// hands its node to its parent only after it has released its own lock.
+//@ ghost heldM(m *sync.Mutex) bool
+//@ func ext (*sync.Mutex).Lock
+//@   requires[not_reentrant] !heldM(m)
+//@   modifies heldM(m)
+//@   ensures heldM(m)
+//@ func ext (*sync.Mutex).Unlock
+//@   requires[held] heldM(m)
+//@   modifies heldM(m)
+//@   ensures !heldM(m)
+//@ func (*Directory).getNode
+//@   assumed
+//@   requires[lock_free] !heldM(addr(d.lock))
+//@   ensures[lock_released] !heldM(addr(d.lock))
+//@ func (*Directory).Flush
+//@   prop C20
+//@   arith int-assumed
+//@   requires d != nil
+//@   requires[lock_free] !heldM(addr(d.lock))
+//@   modifies all
+//@   site[parent_told_without_holding_the_directory_lock] invoke:updateChildEntry : !heldM(addr(d.lock))
+//@   ensures[lock_released] !heldM(addr(d.lock))
